@@ -378,6 +378,27 @@ class Parser:
                 # see if we can finish without consuming the whole input.
                 actions = cur_state.actions.get(STOP)
 
+            # Dynamic disambiguation. If the filter rejects every action the
+            # lookahead can't be handled in this state: report a syntax error.
+            if actions and self.dynamic_filter:
+                actions = self._dynamic_disambiguation(head, actions)
+
+                # If after dynamic disambiguation we still have at least one
+                # shift and non-empty reduction or multiple non-empty
+                # reductions raise exception.
+                if (
+                    len(
+                        [
+                            a
+                            for a in actions
+                            if (a.action is SHIFT)
+                            or ((a.action is REDUCE) and len(a.prod.rhs))
+                        ]
+                    )
+                    > 1
+                ):
+                    raise DynamicDisambiguationConflict(head, actions)
+
             if not actions:
                 symbols_expected = list(cur_state.actions.keys())
                 tokens_ahead = self._get_all_possible_tokens_ahead(head)
@@ -406,26 +427,6 @@ class Parser:
                         break
                 else:
                     break
-
-            # Dynamic disambiguation
-            if self.dynamic_filter:
-                actions = self._dynamic_disambiguation(head, actions)
-
-                # If after dynamic disambiguation we still have at least one
-                # shift and non-empty reduction or multiple non-empty
-                # reductions raise exception.
-                if (
-                    len(
-                        [
-                            a
-                            for a in actions
-                            if (a.action is SHIFT)
-                            or ((a.action is REDUCE) and len(a.prod.rhs))
-                        ]
-                    )
-                    > 1
-                ):
-                    raise DynamicDisambiguationConflict(head, actions)
 
             # If dynamic disambiguation is disabled either globaly by not
             # giving disambiguation function or localy by not marking
